@@ -19,6 +19,7 @@ func init() {
 			{Name: "read-direction", Quick: 15000, Thorough: 500000, Run: c06Read},
 			{Name: "golden-files", Quick: 1, Thorough: 1, Run: c06Golden, Serial: true},
 			{Name: "65536-chunks-both-cookies", Quick: 2, Thorough: 6, Run: c06Huge},
+			{Name: "every-chunk-count", ExhaustiveN: func(t string) int { return len(chunkCounts(t)) }, RunIndexed: c06EveryCount},
 		},
 	})
 }
